@@ -34,7 +34,7 @@ def make_gfunction(heights_to_curves: dict, b, r_b, d, coords):
     )
 
 
-def make_ghe(phys, coords, H, flow_lps_bh, loads, n_months, *, max_eft=35.0, min_eft=5.0, hmax=None, hmin=None,
+def make_ghe(phys, coords, H, flow_lps_bh, loads, n_months, *, start_month=1, max_eft=35.0, min_eft=5.0, hmax=None, hmin=None,
              curves=None, real_g=False, rgen=None):
     """A real GHE (constructor runs the real to_single, radial model and HybridLoad)."""
     from ghedesigner.gfunction import calc_g_func_for_multiple_lengths
@@ -46,7 +46,7 @@ def make_ghe(phys, coords, H, flow_lps_bh, loads, n_months, *, max_eft=35.0, min
     n = len(coords)
     b = borehole_spacing(bh, coords)
     m_flow_bh = flow_lps_bh / 1000.0 * fluid.rho
-    sp = SimulationParameters(1, n_months, max_eft, min_eft, hmax if hmax is not None else max(H, 1.0) * 1.5,
+    sp = SimulationParameters(start_month, start_month + n_months - 1, max_eft, min_eft, hmax if hmax is not None else max(H, 1.0) * 1.5,
                               hmin if hmin is not None else max(H, 1.0) * 0.5)
     with warnings.catch_warnings():
         warnings.simplefilter("ignore")
